@@ -2203,6 +2203,135 @@ Proof.
   intros L. split; [|apply Forall_wf_of_dense]. rewrite <- (concat_chunks n k l L) at 2. apply dense_of_dense_rows.
 Qed.
 
+Lemma Forall2_conj {A B} (R : A -> B -> Prop) (P : A -> Prop) l l' :
+  Forall2 R l l' -> Forall P l -> Forall2 (fun x y => R x y /\ P x) l l'.
+Proof. intros H. induction H; intros HP; inversion HP; subst; constructor; auto. Qed.
+
+(* ================================================================== Part 11b: SparseArray with SparseArray (same shape, one-row broadcast) *)
+Lemma map2M_map {A A' B B' C} (f : A' -> B' -> res C) (g : A -> A') (h : B -> B') a b :
+  map2M f (map g a) (map h b) = map2M (fun x y => f (g x) (h y)) a b.
+Proof. revert b. induction a as [|x a IH]; intros [|y b]; cbn; auto. now rewrite IH. Qed.
+Lemma map2M_okF {A B} (k : A -> B -> res cells) a b :
+  map2M (fun x y => okF (k x y)) a b = (do l <- map2M k a b; Ok (map VF l)).
+Proof.
+  revert b. induction a as [|x a IH]; intros [|y b]; cbn; auto. destruct (k x y); cbn; auto.
+  rewrite IH. destruct (map2M k a b); reflexivity.
+Qed.
+(* the three row pairings of sparse_array_math: one row on the left, one row on the right, zip *)
+Definition pair_rows {A B C} (f : A -> B -> res C) (rows : list A) (rows2 : list B) : res (list C) :=
+  match rows, rows2 with
+  | [row], _ => mapM (f row) rows2
+  | _, [x] => mapM (fun r => f r x) rows
+  | _, _ => map2M f rows rows2
+  end.
+Section AA.
+  Variable a : aop.
+  Let k := k_sparse false a.
+  Lemma aa_left r l : (do z <- mapM (fun x => vec_bin false (BA a) (VF r) x) (map PV l); obj_of_rows z) = (do z <- mapM (k r) l; Ok (OA z false)).
+  Proof. rewrite mapM_map. rewrite (mapM_ext _ (fun x => okF (k r x))) by reflexivity. rewrite (mapM_okF (k r) l).
+         destruct (mapM (k r) l); cbn; auto using obj_of_rows_VF. Qed.
+  Lemma aa_right x l : (do z <- mapM (fun r => vec_bin false (BA a) r (PV x)) (map VF l); obj_of_rows z) = (do z <- mapM (fun r => k r x) l; Ok (OA z false)).
+  Proof. rewrite mapM_map. rewrite (mapM_ext _ (fun r => okF (k r x))) by reflexivity. rewrite (mapM_okF (fun r => k r x) l). destruct (mapM (fun r => k r x) l); cbn; auto using obj_of_rows_VF. Qed.
+  Lemma aa_zip l l2 : (do z <- map2M (fun r x => vec_bin false (BA a) r x) (map VF l) (map PV l2); obj_of_rows z) = (do z <- map2M k l l2; Ok (OA z false)).
+  Proof. rewrite map2M_map. rewrite (map2M_ext _ (fun r x => okF (k r x))) by reflexivity. rewrite (map2M_okF k l l2). destruct (map2M k l l2); cbn; auto using obj_of_rows_VF. Qed.
+  Theorem array_bin_aa rows rows2 :
+    array_bin false (BA a) (map VF rows) (PA rows2) = (do l <- pair_rows k rows rows2; Ok (OA l false)).
+  Proof.
+    unfold array_bin, pair_rows.
+    destruct rows as [|r [|r2 rows]]; destruct rows2 as [|x [|x2 rows2]]; cbn [map];
+      repeat match goal with
+             | |- context [?c ?y :: map ?c ?l] => change (c y :: map c l) with (map c (y :: l))
+             end;
+      try reflexivity.
+    all: try (change [VF r] with (map VF [r])); try (change [PV x] with (map PV [x])).
+    all: first [apply aa_left | apply aa_right | apply aa_zip | idtac].
+  Qed.
+End AA.
+
+(* rows against rows refine NumPy's 2-d broadcasting when the numbers of rows agree or one side has a single row *)
+Definition Rvn (y : cells) (y' : list Q) : Prop := Rv y y' /\ y <> [].
+Lemma Forall2_Rvn_length rows2 m2 : Forall2 Rvn rows2 m2 -> length rows2 = length m2.
+Proof. intros H. induction H; cbn; auto. Qed.
+Lemma Forall2_length {A B} (R : A -> B -> Prop) l l' : Forall2 R l l' -> length l = length l'.
+Proof. intros H. induction H; cbn; auto. Qed.
+Theorem pair_rows_refines a rows m rows2 m2 : a <> Div -> Forall2 Rv rows m -> Forall2 Rvn rows2 m2 ->
+  (length rows = length rows2 \/ length rows = 1%nat \/ length rows2 = 1%nat) ->
+  rrel (Forall2 Rv) (pair_rows (k_sparse false a) rows rows2) (np_arith22 a m m2).
+Proof.
+  intros Ha Hr Hr2 Hsh.
+  assert (P : forall x x' y y', Rv x x' -> Rvn y y' -> rrel Rv (k_sparse false a x y) (np_arith a x' y')).
+  { intros x x' y y' Hx [Hy Hn]. apply arith_sparse_refines; auto. }
+  unfold np_arith22, np_bcast_rows. rewrite <- (Forall2_length _ _ _ Hr), <- (Forall2_length _ _ _ Hr2).
+  destruct Hr as [|r r' rows m Hr0 Hr]; [|destruct Hr as [|r1 r1' rows m Hr1 Hr]].
+  - (* no row on the left *)
+    destruct Hr2 as [|x x' rows2 m2 Hx Hr2]; cbn; [constructor|].
+    destruct Hr2 as [|x1 x1' rows2 m2 Hx1 Hr2]; cbn; [constructor|].
+    destruct Hsh as [H|[H|H]]; cbn in H; discriminate.
+  - (* one row on the left *)
+    unfold pair_rows. cbn [length hd].
+    assert (G : rrel (Forall2 Rv) (mapM (k_sparse false a r) rows2) (mapM (np_arith a r') m2)).
+    { apply (mapM_rrel Rvn); auto. }
+    destruct Hr2 as [|x x' rows2 m2 Hx Hr2]; [cbn; constructor|].
+    destruct Hr2 as [|x1 x1' rows2 m2 Hx1 Hr2]; [|exact G].
+    cbn in *. destruct (k_sparse false a r x), (np_arith a r' x'); cbn in *; auto.
+  - (* several rows on the left *)
+    unfold pair_rows.
+    assert (GR : Forall2 Rv (r :: r1 :: rows) (r' :: r1' :: m)) by (repeat constructor; auto).
+    destruct Hr2 as [|x x' rows2 m2 Hx Hr2].
+    + destruct Hsh as [H|[H|H]]; cbn in H; discriminate.
+    + destruct Hr2 as [|x1 x1' rows2 m2 Hx1 Hr2].
+      * cbn [length hd Nat.eqb]. apply (mapM_rrel Rv); auto; intros; now apply P.
+      * assert (L : length rows = length rows2) by (destruct Hsh as [H|[H|H]]; cbn in H; try discriminate; lia).
+        cbn [length]. rewrite L, !Nat.eqb_refl.
+        apply (map2M_rrel Rv Rvn); auto; repeat constructor; auto.
+Qed.
+Lemma map2M_map_l {A A' B C} (f : A' -> B -> res C) (g : A -> A') a b :
+  map2M f (map g a) b = map2M (fun x y => f (g x) y) a b.
+Proof. revert b. induction a as [|x a IH]; intros [|y b]; cbn; auto. now rewrite IH. Qed.
+(* in-place: sparse_array_imath *)
+Definition ipair_rows {A B C} (f : A -> B -> res C) (rows : list A) (rows2 : list B) : res (list C) :=
+  match rows2 with [x] => mapM (fun r => f r x) rows | _ => map2M f rows rows2 end.
+Theorem array_ibin_aa a rows rows2 :
+  array_ibin false (BA a) false (map VF rows) (PA rows2) = (do l <- ipair_rows (k_sparse false a) rows rows2; Ok (map VF l)).
+Proof.
+  unfold array_ibin, ipair_rows.
+  assert (F : is_float_rows (map VF rows) = true) by (destruct rows; reflexivity). rewrite F. cbn [negb].
+  destruct rows2 as [|x [|x2 rows2]].
+  - rewrite map2M_map_l. destruct rows; reflexivity.
+  - rewrite mapM_map. rewrite (mapM_ext _ (fun r => okF (k_sparse false a r x))) by (intros; cbn [vec_ibin]; now rewrite inplace_eq_binary).
+    apply mapM_okF.
+  - rewrite map2M_map_l.
+    rewrite (map2M_ext _ (fun r y => okF (k_sparse false a r y))) by (intros; cbn [vec_ibin]; now rewrite inplace_eq_binary).
+    apply map2M_okF.
+Qed.
+Theorem ipair_rows_refines a rows m rows2 m2 n : a <> Div -> Forall2 Rv rows m -> Forall2 Rvn rows2 m2 ->
+  Forall (fun r => length r = n) rows -> Forall (fun r => length r = n \/ length r = 1%nat) rows2 ->
+  (length rows2 = length rows \/ length rows2 = 1%nat) ->
+  rrel (Forall2 Rv) (ipair_rows (k_sparse false a) rows rows2) (np_iarith22 a m m2).
+Proof.
+  intros Ha Hr Hr2 Hn Hn2 Hsh.
+  assert (P : forall x x' y y', (Rv x x' /\ length x = n) -> (Rvn y y' /\ (length y = n \/ length y = 1%nat)) ->
+               rrel Rv (k_sparse false a x y) (np_iarith a x' y')).
+  { intros x x' y y' [Hx Lx] [[Hy Hne] Ly]. rewrite np_iarith_binary.
+    - apply arith_sparse_refines; auto.
+    - rewrite <- (Rv_length _ _ Hx), <- (Rv_length _ _ Hy). destruct Ly; [left|right]; congruence. }
+  assert (R1 : Forall2 (fun x x' => Rv x x' /\ length x = n) rows m) by (apply Forall2_conj; auto).
+  assert (R2 : Forall2 (fun y y' => Rvn y y' /\ (length y = n \/ length y = 1%nat)) rows2 m2) by (apply Forall2_conj; auto).
+  unfold np_iarith22, ipair_rows. rewrite <- (Forall2_length _ _ _ Hr), <- (Forall2_length _ _ _ Hr2).
+  destruct R2 as [|x x' rows2 m2 Hx R2]; [|destruct R2 as [|x1 x1' rows2 m2 Hx1 R2]].
+  - destruct Hsh as [H|H]; [|discriminate]. cbn in H. rewrite <- H. cbn.
+    destruct R1; [constructor|discriminate].
+  - cbn [length hd]. destruct (Nat.eqb (length rows) 1) eqn:E1.
+    + destruct R1 as [|r r' rows m Hrr R1]; [discriminate|]. destruct R1; [|discriminate]. cbn.
+      pose proof (P r r' x x' Hrr Hx) as G. destruct (k_sparse false a r x), (np_iarith a r' x'); cbn in *; auto.
+    + cbn [Nat.eqb]. eapply mapM_rrel; [|exact R1]. cbn. intros; now apply P.
+  - assert (L : length rows = S (S (length rows2))) by (destruct Hsh as [H|H]; cbn in H; [lia|discriminate]).
+    cbn [length]. rewrite L, Nat.eqb_refl.
+    apply (map2M_rrel (fun x x' => Rv x x' /\ length x = n)
+                      (fun y y' => Rvn y y' /\ (length y = n \/ length y = 1%nat)) Rv);
+      [intros; now apply P | exact R1 | constructor; [exact Hx|constructor; [exact Hx1|exact R2]]].
+Qed.
+
 (* ================================================================== Part 12: histories refine NumPy histories (vectors, logical vectors, row-wise arrays) *)
 Inductive fop (s : store) : xop -> Prop :=
 | F_bin a i x c ro : a <> Div -> nth_error s i = Some (OV c ro) -> okarg s c x -> fop s (XOp (OBin (BA a) i x))
@@ -2228,7 +2357,24 @@ Inductive fop (s : store) : xop -> Prop :=
 | F_clear i c ro : nth_error s i = Some (OV c ro) -> fop s (XOp (OClear i))
 | F_setro i c ro : nth_error s i = Some (OV c ro) -> fop s (XOp (OSetRO i))
 | F_copylike i j c d ro : nth_error s i = Some (OV c false) -> nth_error s j = Some (OV d ro) -> length d = length c ->
-    fop s (XOp (OCopyLike i (CObj j))).
+    fop s (XOp (OCopyLike i (CObj j)))
+| F_aabin a i j rows ro rows2 ro2 : a <> Div -> nth_error s i = Some (OA rows ro) -> nth_error s j = Some (OA rows2 ro2) ->
+    Forall (fun r => r <> []) rows2 ->
+    (length rows = length rows2 \/ length rows = 1%nat \/ length rows2 = 1%nat) ->
+    fop s (XOp (OBin (BA a) i (AObj j)))
+| F_aaibin a i j rows rows2 ro2 n : a <> Div -> nth_error s i = Some (OA rows false) -> nth_error s j = Some (OA rows2 ro2) ->
+    j <> i -> Forall (fun r => r <> []) rows2 ->
+    Forall (fun r => length r = n) rows -> Forall (fun r => length r = n \/ length r = 1%nat) rows2 ->
+    (length rows2 = length rows \/ length rows2 = 1%nat) ->
+    fop s (XOp (OIBin (BA a) i (AObj j)))
+| F_cmp m i x c ro : nth_error s i = Some (OV c ro) -> okarg s c x -> fop s (XOp (OBin (BC m) i x))
+| F_get i ix c ro : nth_error s i = Some (OV c ro) -> valid_index (length c) ix -> fop s (XOp (OGet i ix))
+| F_set_scalar i ix q c : nth_error s i = Some (OV c false) -> valid_index (length c) ix -> fop s (XOp (OSet i ix (AScal q)))
+| F_set_values i ix l c : nth_error s i = Some (OV c false) -> valid_index (length c) ix ->
+    match ix with IList _ | IMask _ | ISlice _ _ _ => True | _ => False end ->
+    length l = length (index_list (length c) ix) -> (2 <= length l)%nat -> fop s (XOp (OSet i ix (AArr l)))
+| F_red r i axis keep c ro : nth_error s i = Some (OV c ro) -> c <> [] -> axis = None \/ axis = Some O ->
+    fop s (XOp (ORed r i axis keep)).
 
 Lemma np_arith_err a v w e : a <> Div -> np_arith a v w = Err e -> e = EValue.
 Proof.
@@ -2251,17 +2397,28 @@ Proof.
   - unfold getobj in R. destruct Hx as (e & ro2 & Ej & _). rewrite Ej in R. inversion R; exact I.
   - inversion R. unfold reduce1. destruct l as [|? [|? ?]]; exact I.
 Qed.
-Lemma Forall2_conj {A B} (R : A -> B -> Prop) (P : A -> Prop) l l' :
-  Forall2 R l l' -> Forall P l -> Forall2 (fun x y => R x y /\ P x) l l'.
-Proof. intros H. induction H; intros HP; inversion HP; subst; constructor; auto. Qed.
 Lemma mapM_err_in {A B} (g : A -> res B) l e : mapM g l = Err e -> exists x, In x l /\ g x = Err e.
 Proof.
   induction l as [|x l IH]; cbn; [discriminate|]. destruct (g x) eqn:G.
   - destruct (mapM g l); [discriminate|]. intros H. inversion H; subst. destruct (IH eq_refl) as (y & ? & ?). exists y. split; auto.
   - intros H. inversion H; subst. exists x. split; auto.
 Qed.
+(* what an operation returns, related to what NumPy returns *)
+Definition orel (r : outcome) (r' : doutcome) : Prop :=
+  match r, r' with
+  | RErr e, DErr e' => e = e'
+  | RNew o, DNew o' => osim o o'
+  | RUnit, DUpd _ => True
+  | RSelf, DSelf => True
+  | RScal q, DScal q' => q == q'
+  | RBool b, DBool b' => b = b'
+  | RDense l, DDense l' => Forall2 Qeq l l'
+  | RDenseB l, DDenseB l' => l = l'
+  | _, _ => False
+  end.
 Definition good (s : store) (d : dstore) (o : xop) : Prop :=
-  sim (fst (xstep false s o)) (fst (np_step d o)) /\ crashed (snd (xstep false s o)) = false.
+  sim (fst (xstep false s o)) (fst (np_step d o)) /\ crashed (snd (xstep false s o)) = false /\
+  orel (snd (xstep false s o)) (snd (np_step d o)).
 
 Lemma rows_arg_refines s d a x rows m : sim s d -> a <> Div -> rows <> [] -> Forall2 Rv rows m ->
   Forall (fun c => okarg s c x) rows ->
@@ -2295,8 +2452,8 @@ Proof.
   assert (RR : rrel (Forall2 Rv) (mapM (rowk a p) rows) (np_arith2 a m w)).
   { unfold np_arith2. eapply mapM_rrel; [|exact F]. cbn. intros c c' (_ & H & _). exact H. }
   destruct (mapM (rowk a p) rows) as [l|e] eqn:M; destruct (np_arith2 a m w) as [r'|e'] eqn:N; cbn in RR; try contradiction; cbn.
-  - split; auto. apply sim_app; auto. cbn. auto.
-  - split; auto. subst. now rewrite (np_arith2_err _ _ _ _ Ha N).
+  - split; [apply sim_app; auto; cbn; auto|split; [reflexivity|cbn; auto]].
+  - subst. split; [auto|split; [now rewrite (np_arith2_err _ _ _ _ Ha N)|reflexivity]].
 Qed.
 Lemma with_rows_VF rows ro l : with_rows (OA rows ro) (map VF l) = Ok (OA l ro).
 Proof. cbn. now rewrite all_F_VF. Qed.
@@ -2328,8 +2485,8 @@ Proof.
     rewrite map2M_pure, mapM_pure in Hr. destruct (Nat.eqb (length r) (length w)); [discriminate|].
     destruct (Nat.eqb (length w) 1); [discriminate|]. congruence. }
   destruct (mapM (rowk a p) rows) as [l|e] eqn:M; destruct (np_iarith2 a m w) as [r'|e'] eqn:N; cbn in RR; try contradiction; cbn [bind].
-  - rewrite with_rows_VF. cbn. split; auto. apply sim_upd; auto. cbn. auto.
-  - cbn. split; auto. subst. now rewrite (E2 _ eq_refl).
+  - rewrite with_rows_VF. cbn. split; [apply sim_upd; auto; cbn; auto|split; [reflexivity|exact I]].
+  - cbn. subst. split; [auto|split; [now rewrite (E2 _ eq_refl)|reflexivity]].
 Qed.
 
 Lemma vb_logic bo lo b d : lop_of_bop bo = Some lo -> vec_bin false bo (VB b) (PL d) = okB (lv_isparse lo b d).
@@ -2366,8 +2523,8 @@ Proof.
       inversion Hl; subst; cbn [np_step]; rewrite Ei'; cbn [dargb lop_of_bop]; rewrite ?Ej'; try reflexivity;
       destruct (darg d (AObj j)); reflexivity. }
   rewrite NP. destruct (np_logic lo b b2) as [r|e] eqn:N; cbn.
-  - split; auto. apply sim_app; auto. cbn. auto.
-  - split; auto. now rewrite (np_logic_err _ _ _ _ Hn N).
+  - split; [apply sim_app; auto; cbn; auto|split; [reflexivity|cbn; auto]].
+  - split; [auto|split; [now rewrite (np_logic_err _ _ _ _ Hn N)|reflexivity]].
 Qed.
 Lemma step_sim_libin s d bo lo i j b b2 : sim s d -> lop_of_bop bo = Some lo -> lo <> LDiv ->
   nth_error s i = Some (OL b) -> nth_error s j = Some (OL b2) -> (length b2 = length b \/ length b2 = 1%nat) ->
@@ -2398,22 +2555,263 @@ Proof.
       destruct (darg d (AObj j)); reflexivity. }
   rewrite NP, np_ilogic_binary by (destruct Hsh; [left|right]; congruence).
   destruct (np_logic lo b b2) as [r|e] eqn:N; cbn.
-  - split; auto. apply sim_upd; auto. cbn. auto.
-  - split; auto. now rewrite (np_logic_err _ _ _ _ Hn N).
+  - split; [apply sim_upd; auto; cbn; auto|split; [reflexivity|exact I]].
+  - split; [auto|split; [now rewrite (np_logic_err _ _ _ _ Hn N)|reflexivity]].
 Qed.
 
-Lemma step_sim s d o : sim s d -> fop s o ->
-  sim (fst (xstep false s o)) (fst (np_step d o)) /\ crashed (snd (xstep false s o)) = false.
+(* ---- comparison, indexing and reduction steps on float vectors ---- *)
+Definition vbits (r : res vec) : res bits := match r with Ok (VB b) => Ok b | Ok (VF _) => Err EOther | Err e => Err e end.
+Lemma vbits_okB r : vbits (okB r) = r.
+Proof. destruct r; reflexivity. Qed.
+Lemma arg_cmp_refines s d m c v x : sim s d -> Rv c v -> okarg s c x ->
+  exists p w, resolve s x = Ok p /\ darg d x = Some w /\ pkind p /\
+              rrel eq (vbits (vec_bin false (BC m) (VF c) p)) (np_cmp m v w) /\
+              exists r, vec_bin false (BC m) (VF c) p = okB r.
+Proof.
+  intros Hs Hc Hx. destruct x as [j|q|b|l|l|mm|mm]; cbn in Hx; try contradiction.
+  - destruct Hx as (e & ro & Ej & Hne). destruct (sim_nth _ _ _ _ Hs Ej) as (o' & Ej' & Ho).
+    destruct o' as [w ro'| | |]; cbn in Ho; try contradiction. destruct Ho as [Hew _].
+    exists (PV e), w. split; [cbn; unfold getobj; now rewrite Ej|]. split; [cbn; now rewrite Ej'|]. split; [exact I|].
+    cbn [vec_bin]. split; [|eauto]. rewrite vbits_okB. now apply cmp_sparse_refines.
+  - exists (PS q false), [q]. split; [reflexivity|]. split; [reflexivity|]. split; [exact I|].
+    cbn [vec_bin]. split; [|eauto]. rewrite vbits_okB. apply cmp_scalar_refines; auto. reflexivity.
+  - destruct l as [|x [|y l]]; [congruence| |].
+    + exists (PS x false), [x]. split; [reflexivity|]. split; [reflexivity|]. split; [exact I|].
+      cbn [vec_bin]. split; [|eauto]. rewrite vbits_okB. apply cmp_scalar_refines; auto. reflexivity.
+    + exists (PArr (x :: y :: l) false), (x :: y :: l). split; [reflexivity|]. split; [reflexivity|]. split; [exact I|].
+      cbn [vec_bin]. split; [|eauto]. rewrite vbits_okB. apply cmp_array_refines; auto using Forall2_Qeq_refl; cbn; congruence.
+Qed.
+Lemma step_sim_cmp s d m i x c ro : sim s d -> nth_error s i = Some (OV c ro) -> okarg s c x ->
+  good s d (XOp (OBin (BC m) i x)).
+Proof.
+  intros Hs Ei Hx. destruct (sim_nth _ _ _ _ Hs Ei) as (o' & Ei' & Hoo).
+  destruct o' as [v ro'| | |]; cbn in Hoo; try contradiction. destruct Hoo as [Hcv <-].
+  destruct (arg_cmp_refines s d m c v x Hs Hcv Hx) as (p & w & R & D & P & Href & (rb & Eb)).
+  unfold good, xstep. cbn [xstep_res step_res np_step]. unfold getobj. rewrite Ei, Ei', R, D. cbn [bind vec_of_obj].
+  unfold vector_bin. rewrite Eb in Href. rewrite vbits_okB in Href.
+  destruct p; try contradiction; rewrite Eb;
+    (destruct rb as [b|e]; destruct (np_cmp m v w) as [b'|e'] eqn:N; cbn in Href; try contradiction; cbn;
+     [subst; split; [apply sim_app; auto; cbn; auto|split; [reflexivity|cbn; auto]]
+     |subst; split; [auto|split; [|reflexivity]]]).
+  all: unfold np_cmp, np_bcast in N; rewrite map2M_pure, !mapM_pure in N;
+    destruct (Nat.eqb (length v) (length w)); [discriminate|];
+    destruct (Nat.eqb (length v) 1); [discriminate|];
+    destruct (Nat.eqb (length w) 1); [discriminate|]; inversion N; reflexivity.
+Qed.
+Lemma step_sim_get s d i ix c ro : sim s d -> nth_error s i = Some (OV c ro) -> valid_index (length c) ix ->
+  good s d (XOp (OGet i ix)).
+Proof.
+  intros Hs Ei Hv. destruct (sim_nth _ _ _ _ Hs Ei) as (o' & Ei' & Hoo).
+  destruct o' as [v ro'| | |]; cbn in Hoo; try contradiction. destruct Hoo as [Hcv <-].
+  pose proof (Rv_length _ _ Hcv) as L.
+  unfold good, xstep. cbn [xstep_res step_res np_step]. unfold getobj. rewrite Ei, Ei'. cbn [bind vec_of_obj].
+  destruct (index_list_np (length c) ix Hv) as [NI IR].
+  assert (G : forall idx, np_index_list (length v) ix = Ok idx -> Forall (fun i => (i < length c)%nat) idx ->
+              idx = index_list (length c) ix ->
+              sim s d /\ false = false /\ orel (RDense (map (getc c) idx))
+                (dres (do idx0 <- np_index_list (length v) ix; np_take v idx0) DDense)).
+  { intros idx E Hi _. rewrite E. cbn [bind]. destruct (get_idx_refines c v idx Hcv Hi) as (r & -> & Hr). cbn. auto. }
+  rewrite L in NI.
+  destruct ix as [k|k|l|mk|a b cc|]; cbn [vec_get fst snd crashed index_list].
+  - destruct (get_int_refines c v k Hcv Hv) as (q & -> & Hq). cbn. auto.
+  - destruct (get_int_refines c v k Hcv Hv) as (q & -> & Hq). cbn. auto.
+  - apply (G l); auto.
+  - apply (G (mask_idx mk)); auto.
+  - apply (G (slice_range a b cc)); auto.
+  - cbn. auto.
+Qed.
+Lemma np_put_seq_repeat {A} (q : A) : forall (v pre : list A),
+  np_put (pre ++ v) (seq (length pre) (length v)) (repeat q (length v)) = Ok (pre ++ repeat q (length v)).
+Proof.
+  induction v as [|x v IH]; intros pre; cbn [length seq repeat np_put]; auto.
+  assert (Lt : Nat.ltb (length pre) (length (pre ++ x :: v)) = true) by (apply Nat.ltb_lt; rewrite app_length; cbn; lia).
+  rewrite Lt.
+  assert (U : upd (pre ++ x :: v) (length pre) q = (pre ++ [q]) ++ v).
+  { clear. induction pre; cbn; auto. now rewrite IHpre. }
+  rewrite U. specialize (IH (pre ++ [q])). rewrite app_length in IH. cbn in IH. rewrite Nat.add_1_r in IH.
+  rewrite IH. now rewrite <- app_assoc.
+Qed.
+Lemma np_setitems_scalar {A} (a : list A) idx q : Forall (fun i => (i < length a)%nat) idx ->
+  np_setitems a idx [q] = np_put a idx (repeat q (length idx)).
+Proof.
+  intros Hi. unfold np_setitems.
+  assert (F : forallb (fun i => Nat.ltb i (length a)) idx = true).
+  { apply forallb_forall. intros i Hin. apply Nat.ltb_lt. eapply Forall_forall in Hi; eauto. }
+  rewrite F. cbn [length]. destruct (Nat.eqb 1 (length idx)) eqn:E; auto.
+  apply Nat.eqb_eq in E. rewrite <- E. reflexivity.
+Qed.
+Lemma step_sim_set_scalar s d i ix q c : sim s d -> nth_error s i = Some (OV c false) -> valid_index (length c) ix ->
+  good s d (XOp (OSet i ix (AScal q))).
+Proof.
+  intros Hs Ei Hv. destruct (sim_nth _ _ _ _ Hs Ei) as (o' & Ei' & Hoo).
+  destruct o' as [v ro'| | |]; cbn in Hoo; try contradiction. destruct Hoo as [Hcv <-].
+  pose proof (Rv_length _ _ Hcv) as L.
+  unfold good, xstep. cbn [xstep_res step_res np_step]. unfold getobj. rewrite Ei, Ei'.
+  cbn [bind resolve darg reduce_obj alias_of andb vd2].
+  destruct (index_list_np (length c) ix Hv) as [NI IR]. rewrite L in NI.
+  assert (Fin : forall r r', Rv r r' ->
+            sim (fst (set_obj s i (OV r false), RUnit)) (fst (upd d i (DV r' false), DUpd (DV r' false))) /\
+            crashed (snd (set_obj s i (OV r false), RUnit)) = false /\
+            orel (snd (set_obj s i (OV r false), RUnit)) (snd (upd d i (DV r' false), DUpd (DV r' false)))).
+  { intros r r' H. cbn. split; [apply sim_upd; auto; cbn; auto|split; [reflexivity|exact I]]. }
+  assert (G : forall idx, np_index_list (length v) ix = Ok idx -> Forall (fun i => (i < length c)%nat) idx ->
+              forall r, set_all c idx q = Ok r -> 
+              exists r', (do idx0 <- np_index_list (length v) ix; np_setitems v idx0 [q]) = Ok r' /\ Rv r r').
+  { intros idx E Hi r Hr. rewrite E. cbn [bind]. rewrite np_setitems_scalar by (now rewrite <- L).
+    destruct (set_all_refines idx c v q q Hcv ltac:(reflexivity) Hi) as (r0 & r' & E0 & P & R & _).
+    rewrite Hr in E0. inversion E0; subst. eauto. }
+  destruct ix as [k|k|l|mk|a b cc|]; cbn [is_open is_int andb orb vecF_set sval_of bind index_list].
+  - destruct (set_int_refines c v k q q Hcv ltac:(reflexivity) Hv) as (r & -> & R & _).
+    cbn [bind]. rewrite L in Hv. apply Nat.ltb_lt in Hv. rewrite Hv. now apply Fin.
+  - destruct (set_int_refines c v k q q Hcv ltac:(reflexivity) Hv) as (r & -> & R & _).
+    cbn [bind]. rewrite L in Hv. apply Nat.ltb_lt in Hv. rewrite Hv. now apply Fin.
+  - cbn [set_idx]. destruct (set_all_refines l c v q q Hcv ltac:(reflexivity) IR) as (r & r' & E0 & _).
+    rewrite E0. cbn [bind]. destruct (G l NI IR r E0) as (r2 & -> & R2). now apply Fin.
+  - cbn [set_idx]. destruct (set_all_refines (mask_idx mk) c v q q Hcv ltac:(reflexivity) IR) as (r & r' & E0 & _).
+    rewrite E0. cbn [bind]. destruct (G _ NI IR r E0) as (r2 & -> & R2). now apply Fin.
+  - cbn [set_idx]. destruct (set_all_refines (slice_range a b cc) c v q q Hcv ltac:(reflexivity) IR) as (r & r' & E0 & _).
+    rewrite E0. cbn [bind]. destruct (G _ NI IR r E0) as (r2 & -> & R2). now apply Fin.
+  - destruct (set_open_scalar_refines c v q q Hcv ltac:(reflexivity)) as (r & E0 & R).
+    rewrite E0. cbn [bind]. rewrite NI. cbn [bind]. 
+    rewrite np_setitems_scalar by (apply Forall_forall; intros j Hj; apply in_seq in Hj; lia).
+    cbn [index_list]. rewrite seq_length. pose proof (np_put_seq_repeat q v []) as P. cbn in P. rewrite P.
+    apply Fin. replace (repeat q (length v)) with (map (fun _ => q) v); auto.
+    clear. induction v; cbn; congruence.
+Qed.
+Lemma step_sim_set_values s d i ix l c : sim s d -> nth_error s i = Some (OV c false) -> valid_index (length c) ix ->
+  match ix with IList _ | IMask _ | ISlice _ _ _ => True | _ => False end ->
+  length l = length (index_list (length c) ix) -> (2 <= length l)%nat ->
+  good s d (XOp (OSet i ix (AArr l))).
+Proof.
+  intros Hs Ei Hv Hk Hl H2. destruct (sim_nth _ _ _ _ Hs Ei) as (o' & Ei' & Hoo).
+  destruct o' as [v ro'| | |]; cbn in Hoo; try contradiction. destruct Hoo as [Hcv <-].
+  pose proof (Rv_length _ _ Hcv) as L.
+  assert (R1 : reduce1 l false = PArr l false) by (destruct l as [|? [|? ?]]; cbn in H2; try lia; reflexivity).
+  unfold good, xstep. cbn [xstep_res step_res np_step]. unfold getobj. rewrite Ei, Ei'.
+  cbn [bind resolve darg alias_of andb]. rewrite R1. cbn [reduce_obj vd2 andb].
+  destruct (index_list_np (length c) ix Hv) as [NI IR].
+  destruct (set_zip_refines (index_list (length c) ix) c v l l Hcv (Forall2_Qeq_refl l) IR) as (r & r' & E0 & P & R & _).
+  assert (E1 : vecF_set c ix (PArr l false) = Ok r).
+  { unfold vecF_set. cbn [sval_of bind]. destruct ix; cbn in Hk; try contradiction; exact E0. }
+  assert (E2 : (do idx <- np_index_list (length v) ix; np_setitems v idx l) = Ok r').
+  { rewrite <- L, NI. cbn [bind]. rewrite np_setitems_put; [exact P|now rewrite <- L|exact Hl]. }
+  destruct ix; cbn in Hk; try contradiction; cbn [is_open is_int andb]; rewrite E1; cbn [bind]; rewrite E2; cbn;
+    (split; [apply sim_upd; auto; cbn; auto|split; [reflexivity|exact I]]).
+Qed.
+Lemma step_sim_red s d r i axis keep c ro : sim s d -> nth_error s i = Some (OV c ro) -> c <> [] ->
+  axis = None \/ axis = Some O -> good s d (XOp (ORed r i axis keep)).
+Proof.
+  intros Hs Ei Hne Hax. destruct (sim_nth _ _ _ _ Hs Ei) as (o' & Ei' & Hoo).
+  destruct o' as [v ro'| | |]; cbn in Hoo; try contradiction. destruct Hoo as [Hcv <-].
+  unfold good, xstep. cbn [xstep_res step_res np_step]. unfold getobj. rewrite Ei, Ei'. cbn [bind].
+  assert (A : match axis with None | Some O => red_vecF r c keep | _ => RErr EValue end = red_vecF r c keep)
+    by (destruct Hax; subst; reflexivity).
+  rewrite A.
+  destruct (mean_refines c v Hcv Hne) as (qm & Em & Hm).
+  destruct (max_refines c v Hcv Hne) as (mx & mx' & Emx & Emx' & Hmx).
+  destruct (min_refines c v Hcv Hne) as (mn & mn' & Emn & Emn' & Hmn).
+  pose proof (any_refines c v Hcv) as Ha. pose proof (all_refines c v Hcv) as Hl. pose proof (sum_refines c v Hcv) as Hsum.
+  assert (K : forall q q', q == q' -> osim (OV (keep1 q) false) (DV [q'] false)) by (intros; cbn; split; auto; now apply keep1_refines).
+  pose proof (K _ _ Hsum) as K1. pose proof (K _ _ Hm) as K2. pose proof (K _ _ Hmx) as K3. pose proof (K _ _ Hmn) as K4.
+  cbn in K1, K2, K3, K4.
+  unfold red_vecF. destruct Hax; subst axis; destruct r, keep; cbn [fst snd];
+    rewrite ?Emx, ?Emn, ?Em, ?Emx', ?Emn'; cbn;
+    (split; [first [apply sim_app; auto; cbn; auto; try congruence | exact Hs]|split; [reflexivity|cbn; auto; try congruence]]).
+Qed.
+
+(* ---- SparseArray with SparseArray steps ---- *)
+Lemma map2M_err_in {A B C} (g : A -> B -> res C) : forall l l2 e, map2M g l l2 = Err e -> exists x y, g x y = Err e.
+Proof.
+  induction l as [|x l IH]; intros [|y l2] e H; cbn in H; try discriminate. destruct (g x y) eqn:G.
+  - destruct (map2M g l l2) eqn:M; [discriminate|]. inversion H; subst. eauto.
+  - inversion H; subst. eauto.
+Qed.
+Lemma np_arith22_err a m m2 e : a <> Div -> np_arith22 a m m2 = Err e -> e = EValue.
+Proof.
+  intros Ha. unfold np_arith22, np_bcast_rows.
+  destruct (Nat.eqb (length m) (length m2)).
+  - intros H. apply map2M_err_in in H as (x & y & H). eapply np_arith_err; eauto.
+  - destruct (Nat.eqb (length m) 1).
+    + intros H. apply mapM_err_in in H as (x & _ & H). eapply np_arith_err; eauto.
+    + destruct (Nat.eqb (length m2) 1); [|congruence].
+      intros H. apply mapM_err_in in H as (x & _ & H). eapply np_arith_err; eauto.
+Qed.
+Lemma np_iarith_err a v w e : a <> Div -> np_iarith a v w = Err e -> e = EValue.
+Proof.
+  intros Ha Hr. unfold np_iarith, np_ibcast in Hr.
+  rewrite (map2M_ext _ (fun x y => Ok (qop a x y))) in Hr by (intros; now apply aop_q_pure).
+  rewrite (mapM_ext (fun x => aop_q a x (hd 0 w)) (fun x => Ok (qop a x (hd 0 w)))) in Hr by (intros; now apply aop_q_pure).
+  rewrite map2M_pure, mapM_pure in Hr. destruct (Nat.eqb (length v) (length w)); [discriminate|].
+  destruct (Nat.eqb (length w) 1); [discriminate|]. congruence.
+Qed.
+Lemma np_iarith22_err a m m2 e : a <> Div -> np_iarith22 a m m2 = Err e -> e = EValue.
+Proof.
+  intros Ha. unfold np_iarith22.
+  destruct (Nat.eqb (length m) (length m2)).
+  - intros H. apply map2M_err_in in H as (x & y & H). eapply np_iarith_err; eauto.
+  - destruct (Nat.eqb (length m2) 1); [|congruence].
+    intros H. apply mapM_err_in in H as (x & _ & H). eapply np_iarith_err; eauto.
+Qed.
+Lemma sim_two_arrays s d i j rows ro rows2 ro2 : sim s d -> nth_error s i = Some (OA rows ro) -> nth_error s j = Some (OA rows2 ro2) ->
+  Forall (fun r => r <> []) rows2 ->
+  exists m m2, nth_error d i = Some (DA m ro) /\ nth_error d j = Some (DA m2 ro2) /\ Forall2 Rv rows m /\ Forall2 Rvn rows2 m2.
+Proof.
+  intros Hs Ei Ej Hn.
+  destruct (sim_nth _ _ _ _ Hs Ei) as (o' & Ei' & Hoo). destruct o' as [| |m ro'|]; cbn in Hoo; try contradiction. destruct Hoo as [Hrm <-].
+  destruct (sim_nth _ _ _ _ Hs Ej) as (o2 & Ej' & Hoo2). destruct o2 as [| |m2 ro2'|]; cbn in Hoo2; try contradiction. destruct Hoo2 as [Hrm2 <-].
+  exists m, m2. repeat split; auto. unfold Rvn. now apply Forall2_conj.
+Qed.
+Lemma step_sim_aabin2 s d a i j rows ro rows2 ro2 : sim s d -> a <> Div ->
+  nth_error s i = Some (OA rows ro) -> nth_error s j = Some (OA rows2 ro2) -> Forall (fun r => r <> []) rows2 ->
+  (length rows = length rows2 \/ length rows = 1%nat \/ length rows2 = 1%nat) ->
+  good s d (XOp (OBin (BA a) i (AObj j))).
+Proof.
+  intros Hs Ha Ei Ej Hn Hsh.
+  destruct (sim_two_arrays s d i j rows ro rows2 ro2 Hs Ei Ej Hn) as (m & m2 & Ei' & Ej' & Hrm & Hrm2).
+  unfold good, xstep. cbn [xstep_res step_res np_step resolve darg darg2]. unfold getobj. rewrite Ei, Ej, Ei', Ej'.
+  cbn [bind vec_of_obj rows_of]. rewrite array_bin_aa.
+  pose proof (pair_rows_refines a rows m rows2 m2 Ha Hrm Hrm2 Hsh) as RR.
+  destruct (pair_rows (k_sparse false a) rows rows2) as [l|e]; destruct (np_arith22 a m m2) as [r'|e'] eqn:N; cbn in RR; try contradiction; cbn.
+  - split; [apply sim_app; auto; cbn; auto|split; [reflexivity|cbn; auto]].
+  - subst. split; [auto|split; [now rewrite (np_arith22_err _ _ _ _ Ha N)|reflexivity]].
+Qed.
+Lemma step_sim_aaibin2 s d a i j rows rows2 ro2 n : sim s d -> a <> Div ->
+  nth_error s i = Some (OA rows false) -> nth_error s j = Some (OA rows2 ro2) -> j <> i ->
+  Forall (fun r => r <> []) rows2 -> Forall (fun r => length r = n) rows ->
+  Forall (fun r => length r = n \/ length r = 1%nat) rows2 -> (length rows2 = length rows \/ length rows2 = 1%nat) ->
+  good s d (XOp (OIBin (BA a) i (AObj j))).
+Proof.
+  intros Hs Ha Ei Ej Hji Hn Hl Hl2 Hsh.
+  destruct (sim_two_arrays s d i j rows false rows2 ro2 Hs Ei Ej Hn) as (m & m2 & Ei' & Ej' & Hrm & Hrm2).
+  assert (Al : Nat.eqb i j = false) by (apply Nat.eqb_neq; congruence).
+  unfold good, xstep. cbn [xstep_res step_res np_step resolve darg darg2 alias_of]. unfold getobj. rewrite Ei, Ej, Ei', Ej', Al.
+  cbn [bind vec_of_obj rows_of]. rewrite array_ibin_aa.
+  pose proof (ipair_rows_refines a rows m rows2 m2 n Ha Hrm Hrm2 Hl Hl2 Hsh) as RR.
+  destruct (ipair_rows (k_sparse false a) rows rows2) as [l|e]; destruct (np_iarith22 a m m2) as [r'|e'] eqn:N; cbn in RR; try contradiction; cbn [bind].
+  - rewrite with_rows_VF. cbn. split; [apply sim_upd; auto; cbn; auto|split; [reflexivity|exact I]].
+  - cbn. subst. split; [auto|split; [now rewrite (np_iarith22_err _ _ _ _ Ha N)|reflexivity]].
+Qed.
+
+Lemma step_sim s d o : sim s d -> fop s o -> good s d o.
 Proof.
   intros Hs Ho. destruct Ho as [a i x c ro Ha Ei Hx | a i x c ro Ha Ei Hx Hsh
                               | a i x rows ro Ha Ei Hne Hok | a i x rows Ha Ei Hne Hok Hsh
                               | bo lo i j b b2 Hl Hn Ei Ej Hne | bo lo i j b b2 Hl Hn Ei Ej Hsh
-                              | i c ro Ei | i c ro Ei | i c ro Ei | i c ro Ei | i c ro Ei | i j c cd rd Ei Ej Hl].
+                              | i c ro Ei | i c ro Ei | i c ro Ei | i c ro Ei | i c ro Ei | i j c cd rd Ei Ej Hl
+                              | a i j rows ro rows2 ro2 Ha Ei Ej Hn Hsh | a i j rows rows2 ro2 n Ha Ei Ej Hji Hn Hl Hl2 Hsh
+                              | m i x c ro Ei Hx | i ix c ro Ei Hv | i ix q c Ei Hv | i ix l c Ei Hv Hk Hl H2 | r i axis keep c ro Ei Hne Hax].
+  13: { eapply step_sim_aabin2; eauto. }
+  13: { eapply step_sim_aaibin2; eauto. }
+  13: { eapply step_sim_cmp; eauto. }
+  13: { eapply step_sim_get; eauto. }
+  13: { eapply step_sim_set_scalar; eauto. }
+  13: { eapply step_sim_set_values; eauto. }
+  13: { eapply step_sim_red; eauto. }
   3: { eapply step_sim_abin; eauto. }
   3: { eapply step_sim_aibin; eauto. }
   3: { eapply step_sim_lbin; eauto. }
   3: { eapply step_sim_libin; eauto. }
-  all: destruct (sim_nth _ _ _ _ Hs Ei) as (o' & Ei' & Hoo); destruct o' as [v ro'| | |]; cbn in Hoo; try contradiction;
+  all: unfold good; destruct (sim_nth _ _ _ _ Hs Ei) as (o' & Ei' & Hoo); destruct o' as [v ro'| | |]; cbn in Hoo; try contradiction;
     destruct Hoo as [Hcv <-].
   - destruct (arg_refines s d a c v x Hs Ha Hcv Hx) as (p & w & R & D & Href & _ & _).
     unfold xstep. cbn [xstep_res step_res np_step]. unfold getobj. rewrite Ei, Ei', R, D. cbn [bind vec_of_obj].
@@ -2425,7 +2823,7 @@ Proof.
     destruct p; try contradiction;
       (destruct (vec_bin false (BA a) (VF c) _) as [[r|bb]|e] eqn:V; try (apply vec_bin_BA_VF in V as (? & V'); discriminate V'); cbn in Href;
        destruct (np_arith a v w) as [r'|e'] eqn:N; cbn in Href; try contradiction; cbn;
-       (split; [auto; try (apply sim_app; auto; cbn; auto) | try reflexivity; subst; now rewrite (np_arith_err _ _ _ _ Ha N)])).
+       (split; [auto; try (apply sim_app; auto; cbn; auto) | split; [try reflexivity; subst; now rewrite (np_arith_err _ _ _ _ Ha N) | cbn; auto]])).
   - destruct (arg_refines s d a c v x Hs Ha Hcv Hx) as (p & w & R & D & Href & Hal & Hlen).
     specialize (Hsh p R).
     unfold xstep. cbn [xstep_res step_res np_step]. unfold getobj. rewrite Ei, Ei', R, D. cbn [bind vec_of_obj is_ro].
@@ -2442,17 +2840,18 @@ Proof.
       (rewrite (Hal _ Hal');
        destruct (vec_bin false (BA a) (VF c) _) as [[r|bb]|e] eqn:V; try (apply vec_bin_BA_VF in V as (? & V'); discriminate V'); cbn in Href;
        destruct (np_arith a v w) as [r'|e'] eqn:N; cbn in Href; try contradiction; cbn;
-       (split; [auto; try (apply sim_upd; auto; cbn; auto) | try reflexivity; subst; now rewrite (np_arith_err _ _ _ _ Ha N)])).
-  - unfold xstep. cbn [xstep_res step_res np_step]. unfold getobj. rewrite Ei, Ei'. cbn. split; auto.
-    apply sim_app; auto. cbn. split; auto. now apply neg_refines.
-  - unfold xstep. cbn [xstep_res step_res np_step]. unfold getobj. rewrite Ei, Ei'. cbn. split; auto.
-    apply sim_app; auto. cbn. split; auto. now apply abs_refines.
-  - unfold xstep. cbn [xstep_res step_res np_step]. unfold getobj. rewrite Ei, Ei'. cbn. split; auto.
-    apply sim_app; auto. cbn. split; auto.
+       (split; [auto; try (apply sim_upd; auto; cbn; auto) | split; [try reflexivity; subst; now rewrite (np_arith_err _ _ _ _ Ha N) | cbn; auto]])).
   - unfold xstep. cbn [xstep_res step_res np_step]. unfold getobj. rewrite Ei, Ei'. cbn.
-    destruct ro; cbn; auto. split; auto. apply sim_upd; auto. cbn. split; auto. now apply empty_refines.
-  - unfold xstep. cbn [xstep_res step_res np_step]. unfold getobj. rewrite Ei, Ei'. cbn. split; auto.
-    apply sim_upd; auto. cbn. split; auto.
+    pose proof (neg_refines _ _ Hcv). split; [apply sim_app; auto; cbn; auto|split; [reflexivity|cbn; auto]].
+  - unfold xstep. cbn [xstep_res step_res np_step]. unfold getobj. rewrite Ei, Ei'. cbn.
+    pose proof (abs_refines _ _ Hcv). split; [apply sim_app; auto; cbn; auto|split; [reflexivity|cbn; auto]].
+  - unfold xstep. cbn [xstep_res step_res np_step]. unfold getobj. rewrite Ei, Ei'. cbn.
+    split; [apply sim_app; auto; cbn; auto|split; [reflexivity|cbn; auto]].
+  - unfold xstep. cbn [xstep_res step_res np_step]. unfold getobj. rewrite Ei, Ei'. cbn.
+    destruct ro; cbn; auto. pose proof (empty_refines _ _ Hcv).
+    split; [apply sim_upd; auto; cbn; auto|split; [reflexivity|exact I]].
+  - unfold xstep. cbn [xstep_res step_res np_step]. unfold getobj. rewrite Ei, Ei'. cbn.
+    split; [apply sim_upd; auto; cbn; auto|split; [reflexivity|exact I]].
   - destruct (sim_nth _ _ _ _ Hs Ej) as (o2 & Ej' & Hoo2). destruct o2 as [w rw| | |]; cbn in Hoo2; try contradiction.
     destruct Hoo2 as [Hdw _].
     unfold xstep. cbn [xstep_res step_res np_step]. unfold getobj. rewrite Ei, Ei', Ej'. cbn [bind].
@@ -2460,7 +2859,7 @@ Proof.
     rewrite Ej. cbn [bind]. rewrite (copy_like_vec_same c cd Hl). cbn [bind].
     assert (L : Nat.eqb (length w) (length v) = true).
     { apply Nat.eqb_eq. now rewrite <- (Rv_length _ _ Hdw), <- (Rv_length _ _ Hcv). }
-    rewrite L. cbn. split; auto. apply sim_upd; auto. cbn. auto.
+    rewrite L. cbn. split; [apply sim_upd; auto; cbn; auto|split; [reflexivity|exact I]].
 Qed.
 
 (* the lift to every history of fragment operations *)
@@ -2469,14 +2868,21 @@ Inductive frun : store -> list xop -> Prop :=
 | frun_cons s o ops : fop s o -> frun (fst (xstep false s o)) ops -> frun s (o :: ops).
 Fixpoint np_run (d : dstore) (ops : list xop) : dstore :=
   match ops with [] => d | o :: t => np_run (fst (np_step d o)) t end.
-Theorem history_refines ops : forall s d, sim s d -> frun s ops -> sim (fst (run false s ops)) (np_run d ops).
+Fixpoint np_outs (d : dstore) (ops : list xop) : list doutcome :=
+  match ops with [] => [] | o :: t => snd (np_step d o) :: np_outs (fst (np_step d o)) t end.
+(* final stores AND everything returned on the way are related *)
+Theorem history_refines_full ops : forall s d, sim s d -> frun s ops ->
+  sim (fst (run false s ops)) (np_run d ops) /\ Forall2 orel (snd (run false s ops)) (np_outs d ops).
 Proof.
-  induction ops as [|o ops IH]; intros s d Hs Hf; cbn; auto.
+  induction ops as [|o ops IH]; intros s d Hs Hf; cbn; [split; auto|].
   inversion Hf as [|s0 o0 ops0 Ho Hrest]; subst.
-  destruct (step_sim s d o Hs Ho) as [H1 H2].
+  destruct (step_sim s d o Hs Ho) as (H1 & H2 & H3).
   destruct (xstep false s o) as [s' r]. cbn in *. rewrite H2.
-  specialize (IH s' (fst (np_step d o)) H1 Hrest). destruct (run false s' ops). cbn in *. exact IH.
+  specialize (IH s' (fst (np_step d o)) H1 Hrest). destruct (run false s' ops). cbn in *.
+  destruct IH as [I1 I2]. split; auto.
 Qed.
+Theorem history_refines ops : forall s d, sim s d -> frun s ops -> sim (fst (run false s ops)) (np_run d ops).
+Proof. intros s d Hs Hf. apply (history_refines_full ops s d Hs Hf). Qed.
 (* dense images at the end of a history of fragment operations started from constructed vectors *)
 Corollary history_dense ops s : store_wf s -> frun s ops ->
   sim (fst (run false s ops)) (np_run (abs_store s) ops).
@@ -2522,3 +2928,148 @@ Proof.
   - intros ix. eapply readonly_vector_rejects; eauto. right; right. eauto.
 Qed.
 
+
+(* ================================================================== Part 15: v[index] = v (the vector itself as the value) *)
+(* NumPy copies the value first: a[idx] = a puts the OLD a[k] at position idx[k].  The sparse vector iterates over
+   itself while it is being written. *)
+Definition setitem_self_statement : Prop :=
+  forall c idx, wf c -> length idx = length c -> Forall (fun i => (i < length c)%nat) idx ->
+    refines (set_zip_lazy c idx 0) (np_put (dense c) idx (dense c)).
+Lemma setitem_self_refuted : ~ setitem_self_statement.
+Proof.
+  intros H. specialize (H [Some 1; Some 2] [1; 0]%nat ltac:(wfv) eq_refl ltac:(repeat constructor)).
+  vm_compute in H. inversion H as [|x y l l' [_ Hx] _]; subst. vm_compute in Hx. discriminate Hx.
+Qed.
+(* it agrees whenever no position is read after it has been written: e.g. the identity selection *)
+Lemma set_zip_lazy_id c : forall k, (k <= length c)%nat -> wf c -> set_zip_lazy c (seq k (length c - k)) k = Ok c.
+Proof.
+  intros k. remember (length c - k)%nat as m eqn:M. revert k M. induction m as [|m IH]; intros k M Hk Hw; cbn [seq set_zip_lazy]; auto.
+  assert (L : Nat.ltb k (length c) = true) by (apply Nat.ltb_lt; lia). rewrite L.
+  assert (E : set1 c k (getc c k) = Ok c).
+  { unfold set1, inb. rewrite L. f_equal. unfold getc.
+    clear -Hw L. apply Nat.ltb_lt in L. revert k L. induction Hw as [|x c Hx Hc IHc]; intros [|k] L; cbn in *; try lia.
+    - f_equal. destruct x as [v|]; cbn; [|reflexivity]. unfold nz. apply qzerob_false in Hx. now rewrite Hx.
+    - f_equal. apply IHc. lia. }
+  rewrite E. cbn [bind]. apply IH; auto; lia.
+Qed.
+
+(* ================================================================== Part 16: SparseArray reductions along an axis *)
+Lemma Rc_nth k : forall r r', Rv r r' -> Rc (nth k r None) (nth k r' 0).
+Proof.
+  induction k as [|k IH]; intros r r' H; destruct H; cbn; auto; try (split; cbn; auto; reflexivity).
+  now apply IH.
+Qed.
+Lemma column_rel rows m k : Forall2 Rv rows m -> Forall2 Rc (column None rows k) (column 0 m k).
+Proof. intros H. unfold column. induction H; cbn; constructor; auto. now apply Rc_nth. Qed.
+Lemma columns_rel rows m : Forall2 Rv rows m -> Forall2 (Forall2 Rc) (columns None rows) (columns 0 m).
+Proof.
+  intros H. unfold columns.
+  assert (V : vsize rows = vsize m) by (destruct H; cbn; auto; now apply Rv_length).
+  rewrite <- V. induction (seq 0 (vsize rows)); cbn; constructor; auto. now apply column_rel.
+Qed.
+Lemma column_length {A} (d : A) rows k : length (column d rows k) = length rows.
+Proof. unfold column. apply map_length. Qed.
+(* one line (a row, or a column given as cells) against its dense image *)
+Lemma line_dense col col' : Forall2 Rc col col' -> Forall2 Qeq (map dcell col) col'.
+Proof. intros H. induction H as [|x x' c c' [_ Hx] H IH]; cbn; constructor; auto. Qed.
+Lemma line_any col col' : Forall2 Rc col col' -> existsb present col = np_any col'.
+Proof. intros H. unfold np_any. induction H; cbn; auto. rewrite (present_truthy _ _ H). now rewrite IHForall2. Qed.
+Lemma line_all col col' : Forall2 Rc col col' -> forallb present col = np_all col'.
+Proof. intros H. unfold np_all. induction H; cbn; auto. rewrite (present_truthy _ _ H). now rewrite IHForall2. Qed.
+Lemma line_sum col col' : Forall2 Rc col col' -> Rc (nz (qsum (map dcell col))) (np_sum col').
+Proof. intros H. apply Rc_nz. apply qsum_compat. now apply line_dense. Qed.
+Lemma line_max col col' : Forall2 Rc col col' -> col <> [] ->
+  exists m', np_max col' = Ok m' /\ Rc (nz (qmax_list (map dcell col))) m'.
+Proof.
+  intros H Hne. pose proof (line_dense _ _ H) as D. destruct H as [|x x' c c' Hx H]; [congruence|].
+  cbn. eexists; split; [reflexivity|]. apply Rc_nz.
+  eapply isMax_unique; [exact D| |]; apply qmaxl_spec.
+Qed.
+Lemma line_min col col' : Forall2 Rc col col' -> col <> [] ->
+  exists m', np_min col' = Ok m' /\ Rc (nz (qmin_list (map dcell col))) m'.
+Proof.
+  intros H Hne. pose proof (line_dense _ _ H) as D. destruct H as [|x x' c c' Hx H]; [congruence|].
+  cbn. eexists; split; [reflexivity|]. apply Rc_nz.
+  eapply isMin_unique; [exact D| |]; apply qminl_spec.
+Qed.
+Lemma qofnat_nz n : (0 < n)%nat -> ~ qofnat n == 0.
+Proof. intros H E. unfold qofnat, inject_Z, Qeq in E. cbn in E. lia. Qed.
+Lemma line_mean col col' : Forall2 Rc col col' -> col <> [] ->
+  exists q', np_mean col' = Ok q' /\ rrel Rc (div_c (nz (qsum (map dcell col))) (qofnat (length col))) (Ok q').
+Proof.
+  intros H Hne. pose proof (line_sum _ _ H) as S. pose proof (Forall2_length _ _ _ H) as L.
+  unfold np_mean, len0. rewrite <- L. destruct col as [|x col]; [congruence|]. cbn [length Nat.eqb].
+  eexists; split; [reflexivity|].
+  assert (N : ~ qofnat (S (length col)) == 0) by (apply qofnat_nz; lia).
+  pose proof (div_c_rel _ _ (qofnat (S (length col))) (qofnat (S (length col))) S ltac:(reflexivity)) as R.
+  rewrite qdiv0_eval_nz in R by exact N. exact R.
+Qed.
+(* a family of lines reduced one by one *)
+Lemma lines_map {A A'} (R : A -> A' -> Prop) (f : A -> cell) (g : A' -> res Q) l l' :
+  (forall x x', R x x' -> exists q', g x' = Ok q' /\ Rc (f x) q') -> Forall2 R l l' ->
+  exists v', mapM g l' = Ok v' /\ Rv (map f l) v'.
+Proof.
+  intros H Hl. induction Hl as [|x x' l l' Hx Hl IH]; cbn; [eexists; split; eauto; constructor|].
+  destruct (H x x' Hx) as (q' & -> & Hq). destruct IH as (v' & -> & Hv). eexists; split; [reflexivity|]. constructor; auto.
+Qed.
+Lemma lines_bool {A A'} (R : A -> A' -> Prop) (f : A -> bool) (g : A' -> bool) l l' :
+  (forall x x', R x x' -> f x = g x') -> Forall2 R l l' -> map f l = map g l'.
+Proof. intros H Hl. induction Hl; cbn; auto. f_equal; auto. Qed.
+Lemma Rv_single rows v' : Rv rows v' -> Forall2 Rv (map (fun x => [x]) rows) (map (fun x => [x]) v').
+Proof. intros H. induction H; cbn; constructor; auto. constructor; auto. constructor. Qed.
+Lemma Rv_map_nz l l' : Forall2 Qeq l l' -> Rv (map nz l) l'.
+Proof. intros H. induction H; cbn; constructor; auto. now apply Rc_nz. Qed.
+Lemma Rv_single_nz l l' : Forall2 Qeq l l' -> Forall2 Rv (map (fun x => [nz x]) l) (map (fun x => [x]) l').
+Proof. intros H. induction H; cbn; constructor; auto. constructor; [now apply Rc_nz|constructor]. Qed.
+
+(* sparse result object against NumPy's result *)
+Definition osim2 (o : obj) (d : dobj2) : Prop :=
+  match o, d with
+  | OV c false, D2V v => Rv c v
+  | OL b, D2L b' => b = b'
+  | OA rows false, D2A m => Forall2 Rv rows m
+  | OB r, D2B r' => r = r'
+  | _, _ => False
+  end.
+Definition out_res (o : outcome) : res obj := match o with RNew x => Ok x | RErr e => Err e | _ => Err EOther end.
+
+(* axis = 0: every reduction of the columns, with and without keepdims *)
+Theorem red_axis0_refines r rows m keep : Forall2 Rv rows m -> rows <> [] ->
+  rrel osim2 (out_res (red_arrF false r rows (Some 0%nat) keep)) (np_red2 r m 0 keep).
+Proof.
+  intros H Hne. pose proof (columns_rel _ _ H) as C.
+  assert (CN : Forall (fun col => col <> []) (columns None rows)).
+  { unfold columns. apply Forall_forall. intros col Hin. apply in_map_iff in Hin as (k & <- & _).
+    intros E. apply (f_equal (@length _)) in E. rewrite column_length in E. destruct rows; [congruence|discriminate]. }
+  assert (CL : Forall (fun col => length col = length rows) (columns None rows)).
+  { unfold columns. apply Forall_forall. intros col Hin. apply in_map_iff in Hin as (k & <- & _). apply column_length. }
+  pose proof (Forall2_conj _ _ _ _ (Forall2_conj _ _ _ _ C CN) CL) as C2. cbn in C2.
+  unfold red_arrF, np_red2, np_lines. cbn [keep_shape].
+  destruct r.
+  - (* any *) rewrite (lines_bool _ (existsb present) (np_red_bool RAny) _ _ line_any C). destruct keep; cbn; reflexivity.
+  - (* all *) destruct rows as [|r0 rows]; [congruence|].
+    rewrite (lines_bool _ (forallb present) (np_red_bool RAll) _ _ line_all C). destruct keep; cbn; reflexivity.
+  - (* sum *)
+    destruct (lines_map (Forall2 Rc) (fun c => nz (qsum (map dcell c))) (np_red_num RSum) _ _
+                (fun x x' Hx => ex_intro _ (np_sum x') (conj eq_refl (line_sum x x' Hx))) C) as (v' & -> & Hv).
+    destruct keep; cbn; auto.
+  - (* mean *)
+    assert (M : exists v', mapM (np_red_num RMean) (columns 0 m) = Ok v' /\
+                  rrel Rv (truediv_scalar (map (fun c => nz (qsum (map dcell c))) (columns None rows)) (qofnat (length rows))) (Ok v')).
+    { unfold truediv_scalar. rewrite mapM_map. clear -C2.
+      induction C2 as [|x x' l l' [[Hx Hn] Hl] Hrest IH]; cbn; [eexists; split; eauto; constructor|].
+      destruct (line_mean x x' Hx Hn) as (q' & -> & Hq). rewrite Hl in Hq.
+      destruct IH as (v' & -> & Hv). eexists; split; [reflexivity|].
+      destruct (div_c _ _); cbn in Hq; try contradiction.
+      destruct (mapM _ l); cbn in Hv; try contradiction. cbn. constructor; auto. }
+    destruct M as (v' & -> & Hv).
+    destruct (truediv_scalar _ _); cbn in Hv; try contradiction. destruct keep; cbn; auto.
+  - (* max *)
+    destruct (lines_map (fun c c' => Forall2 Rc c c' /\ c <> []) (fun c => nz (qmax_list (map dcell c))) (np_red_num RMax) _ _
+                (fun x x' Hx => line_max x x' (proj1 Hx) (proj2 Hx)) (Forall2_conj _ _ _ _ C CN)) as (v' & -> & Hv).
+    destruct keep; cbn; auto.
+  - (* min *)
+    destruct (lines_map (fun c c' => Forall2 Rc c c' /\ c <> []) (fun c => nz (qmin_list (map dcell c))) (np_red_num RMin) _ _
+                (fun x x' Hx => line_min x x' (proj1 Hx) (proj2 Hx)) (Forall2_conj _ _ _ _ C CN)) as (v' & -> & Hv).
+    destruct keep; cbn; auto.
+Qed.
